@@ -6,7 +6,7 @@ import ast
 import z3
 
 from .repo import Unsupported
-from .values import (V, Num, Bool, Str, NoneV, NONE, Opt, Tup, Lst, Dct, SetV, Obj, Opq, Fn, ExcV, ModV,
+from .values import (V, Num, Bool, Str, NoneV, NONE, Opt, Tup, Lst, Dct, SetV, SetL, Obj, Opq, Fn, ExcV, ModV, member, distinct_list,
                      truth, is_none, strip_opt, ite, eq, num_pair, fresh_int, fresh_real, fresh_name)
 from . import symex
 
@@ -377,7 +377,16 @@ def b_len(ex, p, args, kw, node):
     if isinstance(v, (Dct,)):
         return [(p, Num(len(v.pairs)))]
     if isinstance(v, SetV):
+        v = SetL(Lst(items=v.items)) if len(v.items) > 1 else v
+    if isinstance(v, SetV):
         return [(p, Num(len(v.items)))]
+    if isinstance(v, SetL):
+        # cardinality: a fresh c with 0 <= c <= n, c = n iff the elements are pairwise distinct, c > 0 iff n > 0
+        n = v.lst.length()
+        c = ex.fresh_sym(z3.IntSort(), "card", node)
+        ex.bg_local(p, [c >= 0, c <= n, (c == n) == distinct_list(v.lst), (c > 0) == (n > 0)])
+        ex.trace["assumed"].add("len(set(xs)) <= len(xs), with equality iff xs has no repeated element")
+        return [(p, Num(c))]
     if isinstance(v, Str) and v.concrete:
         return [(p, Num(len(v.c)))]
     if isinstance(v, Opq):
@@ -648,13 +657,12 @@ def b_type(ex, p, args, kw, node):
 def b_set(ex, p, args, kw, node):
     if not args:
         return [(p, SetV([]))]
+    if isinstance(args[0], (SetL, SetV)):
+        return [(p, args[0])]
     seq = ex.as_list(args[0], p, node)
     if seq.concrete:
         return [(p, SetV(seq.items))]
-    h = ex.handlers.get("set")
-    if h:
-        return h(ex, p, args, kw, node)
-    raise Unsupported("set() of symbolic list")
+    return [(p, SetL(seq))]
 
 
 # contract-language builtins ------------------------------------------------------------
@@ -687,12 +695,7 @@ def _cquant(which):
 
 
 def b_distinct(ex, p, args, kw, node):
-    seq = ex.as_list(args[0], p, node)
-    if seq.concrete:
-        ts = [eq(a, b) for j, a in enumerate(seq.items) for b in seq.items[j + 1:]]
-        return [(p, Bool(z3.Not(z3.Or(ts)) if ts else z3.BoolVal(True)))]
-    i, j = fresh_int("di"), fresh_int("dj")
-    return [(p, Bool(z3.ForAll([i, j], z3.Implies(z3.And(i >= 0, i < j, j < seq.n), z3.Not(eq(seq.at(i), seq.at(j)))))))]
+    return [(p, Bool(distinct_list(ex.as_list(args[0], p, node))))]
 
 
 BUILTINS = {
